@@ -360,6 +360,15 @@ impl<CharIter: Iterator<Item = char>> Lexer<CharIter> {
         }
     }
 
+    // a numeric literal that cannot be represented (out of range, missing digits) is a
+    // lexical error, not a panic
+    fn parse_number<T: std::str::FromStr>(&self, literal: &str) -> Result<T> {
+        match literal.parse::<T>() {
+            Ok(number) => Ok(number),
+            Err(_) => located_error!(SyntaxError::UnrecognizedToken, Some(self.location)),
+        }
+    }
+
     fn digital10(&mut self, number_literal: &mut String) -> Result<()> {
         loop {
             match self.peekable_char_stream.peek() {
@@ -422,12 +431,14 @@ impl<CharIter: Iterator<Item = char>> Lexer<CharIter> {
                             '0'..='9' => self.digital10(&mut number_literal)?,
                             'e' => {
                                 self.number_suffix(&mut number_literal)?;
+                                self.parse_number::<f64>(&number_literal)?;
                                 break Ok(Some(TokenData::Primitive(Primitive::Real(
                                     number_literal,
                                 ))));
                             }
                             '.' => {
                                 self.real(&mut number_literal)?;
+                                self.parse_number::<f64>(&number_literal)?;
                                 break Ok(Some(TokenData::Primitive(Primitive::Real(
                                     number_literal,
                                 ))));
@@ -437,8 +448,8 @@ impl<CharIter: Iterator<Item = char>> Lexer<CharIter> {
                                 self.advance(1);
                                 self.digital10(&mut denominator)?;
                                 break Ok(Some(TokenData::Primitive(Primitive::Rational(
-                                    number_literal.parse::<i32>().unwrap(),
-                                    match denominator.parse::<u32>().unwrap() {
+                                    self.parse_number::<i32>(&number_literal)?,
+                                    match self.parse_number::<u32>(&denominator)? {
                                         0 => {
                                             return located_error!(
                                                 SyntaxError::RationalDivideByZero,
@@ -452,13 +463,13 @@ impl<CharIter: Iterator<Item = char>> Lexer<CharIter> {
                             _ => {
                                 Self::test_delimiter(Some(self.location), *nc)?;
                                 break Ok(Some(TokenData::Primitive(Primitive::Integer(
-                                    number_literal.parse::<i32>().unwrap(),
+                                    self.parse_number::<i32>(&number_literal)?,
                                 ))));
                             }
                         },
                         None => {
                             break Ok(Some(TokenData::Primitive(Primitive::Integer(
-                                number_literal.parse::<i32>().unwrap(),
+                                self.parse_number::<i32>(&number_literal)?,
                             ))))
                         }
                     }
